@@ -25,6 +25,7 @@
  */
 #include <stdio.h>
 #include <stdlib.h>
+#include <float.h>
 #include "particle.h"
 #include "rebound.h"
 #include "boundary.h"
@@ -151,9 +152,16 @@ static int reb_reb_tree_get_octant_for_particle_in_cell(const struct reb_particl
   * @return 0 is particle is not in cell, 1 if it is.
   */
 static int reb_tree_particle_is_inside_cell(const struct reb_simulation* const r, struct reb_treecell *node){
-	if (fabs(r->particles[node->pt].x-node->x) > node->w/2. || 
-		fabs(r->particles[node->pt].y-node->y) > node->w/2. || 
-		fabs(r->particles[node->pt].z-node->z) > node->w/2. || 
+	// Cells can become so small that their width is comparable to the floating point resolution of the coordinates.
+	// Allow for rounding errors in the cell centres. Otherwise a particle which has not moved at all can appear to have
+	// left its cell, be re-inserted into the very same cell (the tree is descended by comparisons only), and be lost when 
+	// that cell is freed.
+	const double tolx = 4.*DBL_EPSILON*fabs(node->x);
+	const double toly = 4.*DBL_EPSILON*fabs(node->y);
+	const double tolz = 4.*DBL_EPSILON*fabs(node->z);
+	if (fabs(r->particles[node->pt].x-node->x) > node->w/2. + tolx || 
+		fabs(r->particles[node->pt].y-node->y) > node->w/2. + toly || 
+		fabs(r->particles[node->pt].z-node->z) > node->w/2. + tolz || 
         isnan(r->particles[node->pt].y)) {
 		return 0;
 	}
